@@ -153,6 +153,82 @@ def events_for_case(a, cid, gam, K, ids):
     return evs
 
 
+def rank_gamma(values):
+    """gamma for an object the library produced: abstract value = dense rank."""
+    xs = sorted(set(float(v) for v in values))
+    n = len(xs)
+    span = (xs[-1] - xs[0] + 1.0) if xs else 1.0
+
+    def fn(v):
+        if not xs:
+            return float(v)
+        if v < 0:
+            return xs[0] + v * span
+        if v >= n:
+            return xs[-1] + (v - n + 1) * span
+        return xs[v]
+    return gamma.Gamma("ranks", fn, None), {x: i for i, x in enumerate(xs)}, max(n, 1)
+
+
+def sample_case_events(case, cid, ids):
+    from score_analysis import BootstrapConfig, Scores
+    src_d = dict(case["source"])
+    src = Scores(np.array(src_d.pop("pos")), np.array(src_d.pop("neg")), **src_d)
+    evs = []
+    np.random.seed(case["np_seed"])
+    e = {"id": next(ids), "cid": cid, "op": "Adopt", "exc": "", "conc": "ranks", "h": 1,
+         "post": {"pos": [], "neg": [], "ep": 0, "en": 0, "sc": "pos", "ec": "pos"}}
+    evs.append(e)
+    try:
+        smp = src.bootstrap_sample(BootstrapConfig(**case["config"]))
+        g, rank, K = rank_gamma(list(smp.pos) + list(smp.neg))
+        e["post"] = {"pos": [rank[float(x)] for x in smp.pos],
+                     "neg": [rank[float(x)] for x in smp.neg],
+                     "ep": int(smp.nb_easy_pos), "en": int(smp.nb_easy_neg),
+                     "sc": smp.score_class.value, "ec": smp.equal_class.value}
+        t2s, ths = thresholds(K, g, full=True)
+        e2 = {"id": next(ids), "cid": cid, "op": "cm", "exc": "", "conc": "ranks", "h": 1,
+              "t2": t2s, "out": []}
+        evs.append(e2)
+        try:
+            e2["out"] = cm_rows(smp.cm(np.array(ths)).matrix)
+        except Exception as ex:  # noqa
+            e2["exc"] = f"{type(ex).__name__}: {ex}"[:200]
+    except Exception as ex:  # noqa
+        e["exc"] = f"{type(ex).__name__}: {ex}"[:200]
+    return evs
+
+
+def sample_behaviours(ctx, ids, cid0):
+    """Independent trace: objects the library itself produces (bootstrap samples in
+    every sampling mode, incl. smoothing) must satisfy the same counting rule."""
+    from score_analysis import BootstrapConfig, Scores
+    rnd = np.random.RandomState(ctx.seed + 101)
+    cfgs = []
+    for method in ("replacement", "single_pass", "dynamic", "proportion"):
+        for strat in (None, "by_label"):
+            for smooth in (False, True):
+                if smooth and method not in ("replacement", "dynamic"):
+                    continue
+                cfgs.append(dict(sampling_method=method, stratified_sampling=strat,
+                                 smoothing=smooth, ratio=0.6 if method == "proportion" else None))
+    nsrc = 12 if ctx.tier == "quick" else 60
+    events, cases = [], []
+    for j in range(nsrc):
+        npos, nneg = int(rnd.randint(2, 9)), int(rnd.randint(2, 9))
+        pos = np.round(rnd.normal(1.0, 1.0, npos), 1)     # rounding creates ties
+        neg = np.round(rnd.normal(0.0, 1.0, nneg), 1)
+        kw = dict(nb_easy_pos=int(rnd.randint(0, 3)), nb_easy_neg=int(rnd.randint(0, 3)),
+                  score_class=["pos", "neg"][j % 2], equal_class=["pos", "neg"][(j // 2) % 2])
+        for c in cfgs:
+            cid = cid0 + len(cases)
+            case = {"source": {"pos": pos.tolist(), "neg": neg.tolist(), **kw}, "config": c,
+                    "np_seed": int(ctx.seed + 7 * cid)}
+            cases.append(case)
+            events += sample_case_events(case, cid, ids)
+    return events, cases
+
+
 def nontrivial_key(a):
     """a case is non-trivial when it has a tie (within or across classes) or easy
     samples or unsorted input - the situations the test-suite rows do not combine."""
@@ -181,6 +257,10 @@ def run(ctx: core.Ctx):
         k = nontrivial_key(a)
         if k:
             ctx.nontrivial.add(k)
+    sev, scases = sample_behaviours(ctx, ids, len(cases))
+    events += sev
+    cases = cases + scases
+    ctx.extra["library_produced_objects"] = len(scases)
     for e in events[:3]:
         ctx.sample(e)
     ctx.judge("Trace_C01", events, cases=cases)
@@ -200,6 +280,9 @@ def run(ctx: core.Ctx):
 def replay(ctx: core.Ctx, body):
     core.import_repo()
     a = body["case"]
+    if "source" in a:
+        ctx.judge("Trace_C01", sample_case_events(a, 0, iter(range(1, 10**9))), cases=[a])
+        return ctx.finish()
     K = max([2] + [v + 1 for v in a["p"] + a["n"]])
     K = max(K, TIERS["quick"]["K"])
     ids = iter(range(1, 10**9))
